@@ -103,6 +103,27 @@ pub fn build(rng: &mut Rng, scale: usize, thorough: bool) -> Vec<Item> {
 		("fixed.yaml_utf8_bom_4byte_flow", b"\xef\xbb\xbf[\"\xf0\x9f\xa7\x91\", \"\xf0\x9f\x92\xbb\"]\n"),
 		("fixed.yaml_utf8_bom_docs", b"\xef\xbb\xbf---\nk: \xe2\x82\xac\n---\n- \xc3\xbc\xc3\xbc\n- \xe2\x82\xac\n"),
 		("fixed.yaml_utf8_bom_ascii", b"\xef\xbb\xbfa: 1\n---\nb: 2\n"),
+		// line breaks and blanks on which Rust's str methods and YAML disagree
+		("fixed.yaml_comment_cr", b"# c\ra: 1\r"),
+		("fixed.yaml_comment_nel", b"# c\xc2\x85a: 1\n"),
+		("fixed.yaml_comment_ls", b"# c\xe2\x80\xa8a: 1\n"),
+		("fixed.yaml_nbsp_line", b"\xc2\xa0\n"),
+		("fixed.yaml_comment_nbsp_line", b"# c\n\xc2\xa0\n"),
+		("fixed.yaml_ff_line", b"# c\n\x0c\n"),
+		("fixed.yaml_tab_line", b"# c\n\t\n"),
+		("fixed.yaml_vt_line", b"\x0b\n"),
+		// JSON behind a long run of whitespace
+		("fixed.json_ws40_object", b"                                        {\"a\": 1}\n"),
+		("fixed.json_ws40_two", b"\n\n\n\n\n\n\n\n\n\n\n\n\n\n\n\n\n\n\n\n\n\n\n\n\n\n\n\n\n\n\n\n\n\n\n\n\n\n\n\n[1]\n[2]\n"),
+		("fixed.json_ws33_scalar", b"\t\t\t\t\t\t\t\t\t\t\t\t\t\t\t\t\t\t\t\t\t\t\t\t\t\t\t\t\t\t\t\t\t17 18"),
+		("fixed.json_ws31_object", b"                               {\"a\": 1}"),
+		("fixed.json_ws32_object", b"                                {\"a\": 1}"),
+		// YAML in UTF-16 / UTF-32 with a byte order mark, and without one but not ASCII
+		("fixed.yaml_utf16le_bom", b"\xff\xfea\x00:\x00 \x001\x00\n\x00"),
+		("fixed.yaml_utf16be_bom", b"\xfe\xff\x00-\x00 \x00\xe9\x00\n"),
+		("fixed.yaml_utf16le_nonascii", b"k\x00:\x00 \x00\xe9\x00\xac\x20\n\x00"),
+		("fixed.yaml_utf32le_bom", b"\xff\xfe\x00\x00a\x00\x00\x00:\x00\x00\x00 \x00\x00\x001\x00\x00\x00\n\x00\x00\x00"),
+		("fixed.yaml_utf32be_nonascii", b"\x00\x00\x00-\x00\x00\x00 \x00\x00\x20\xac\x00\x00\x00\n"),
 	] {
 		push(&mut v, label, b.to_vec());
 	}
